@@ -27,6 +27,7 @@ import (
 
 	"ergo.services/ergo/act"
 	"ergo.services/ergo/gen"
+	"ergo.services/ergo/net/handshake"
 	"verif.local/vsched"
 	"verif.local/vsched/harn"
 )
@@ -250,6 +251,9 @@ func startTCPNode(name string, cfg tcpNodeCfg) *node {
 	opts.Network.MaxMessageSize = cfg.maxSize
 	opts.Log.DefaultLogger.Disable = true
 	opts.Log.Level = gen.LogLevelDisabled
+	// one link per connection: the scenario is about cookies, and disconnecting while further links are
+	// still being dialled is a different matter (see C14)
+	opts.Network.Handshake = handshake.Create(handshake.Options{PoolSize: 1})
 	if cfg.withAccept {
 		opts.Network.Mode = gen.NetworkModeEnabled
 		base := uint16(21000 + (os.Getpid()%400)*50)
@@ -306,10 +310,6 @@ func init() {
 							for _, change := range changes {
 								idx++
 								if idx%4 != shard {
-									continue
-								}
-								if !c.Thorough && change != "none" && (cA != "x" || cB == "x") && !(rA == "" && aB == "") {
-									// quick: cookie changes are combined with a subset of the start configurations
 									continue
 								}
 								// flags and size limits vary with the configuration index (every value with every role)
